@@ -495,22 +495,24 @@ pub fn traversal_check<A: Clone + Send + Sync>(g: &graphrs::Graph<String, A>, m:
         out.fail("traversal/length/eq_nodes", format!("{} / {} lists for {} nodes", snap.successors_vec.len(), snap.predecessors_vec.len(), names.len()));
         return;
     }
-    let pos = |n: &str| m.pos(n).unwrap();
-    for i in 0..names.len() {
-        // expected neighbour -> all stored weights of the pair
-        let mut ws_s: BTreeMap<usize, Vec<f64>> = BTreeMap::new();
-        let mut ws_p: BTreeMap<usize, Vec<f64>> = BTreeMap::new();
-        for e in &m.edges {
-            if e.u == names[i] {
-                ws_s.entry(pos(&e.v)).or_default().push(e.w);
-            }
-            if !d && e.v == names[i] && e.u != e.v {
-                ws_s.entry(pos(&e.u)).or_default().push(e.w);
-            }
-            if d && e.v == names[i] {
-                ws_p.entry(pos(&e.u)).or_default().push(e.w);
-            }
+    // expected neighbour -> all stored weights of the pair, for every node, in one pass over the edges
+    let index: std::collections::HashMap<&str, usize> = names.iter().enumerate().map(|(i, s)| (s.as_str(), i)).collect();
+    let pos = |n: &str| *index.get(n).expect("edge endpoint is a node of the model");
+    let mut all_s: Vec<BTreeMap<usize, Vec<f64>>> = vec![BTreeMap::new(); names.len()];
+    let mut all_p: Vec<BTreeMap<usize, Vec<f64>>> = vec![BTreeMap::new(); names.len()];
+    for e in &m.edges {
+        let (iu, iv) = (pos(&e.u), pos(&e.v));
+        all_s[iu].entry(iv).or_default().push(e.w);
+        if !d && iu != iv {
+            all_s[iv].entry(iu).or_default().push(e.w);
         }
+        if d {
+            all_p[iv].entry(iu).or_default().push(e.w);
+        }
+    }
+    for i in 0..names.len() {
+        let ws_s = &all_s[i];
+        let ws_p = &all_p[i];
         // minimum weight; NaN when the pair is unweighted; None (not checked) when a pair mixes
         // weighted and unweighted edges, which C03 excludes
         let minw = |ws: &Vec<f64>| -> Option<f64> {
